@@ -71,6 +71,11 @@ type Options struct {
 	// never keeps one task off the CPU for the hundreds of steps another
 	// component needs to get through a narrow window.
 	ParkPermille int
+	// PausePermille > 0 enables slow tasks: at a scheduling point the running
+	// task alone pauses for 1 ms, 20 ms or 300 ms of simulated time (a
+	// descheduled or briefly frozen goroutine) while everything else carries on
+	// and timers fire.
+	PausePermille int
 	Log           bool // keep the event log
 	MaxLog        int
 	RotateMaps    bool // permute canonical map iteration order from the stream
@@ -98,6 +103,8 @@ type Sim struct {
 	Stalls    int
 	Forced    int    // picks forced by the fairness bound
 	Parks     int    // long preemptions injected (ParkPermille)
+	Pauses    int    // single-task pauses injected (PausePermille)
+	pausing   bool
 	Hash      uint64 // hash of the schedule (task name + ordinal at every branching decision)
 	seq       uint64
 	start     time.Time
@@ -235,6 +242,15 @@ func Yield() {
 	}
 	if s.killed {
 		s.dying()
+	}
+	if s.opts.PausePermille > 0 && !s.pausing {
+		if v := s.St.Biased(4, 1000-s.opts.PausePermille, "pause"); v > 0 {
+			s.Pauses++
+			s.pausing = true
+			Sleep([]time.Duration{0, time.Millisecond, 20 * time.Millisecond, 300 * time.Millisecond}[v])
+			s.pausing = false
+			return
+		}
 	}
 	t := s.cur
 	if s.opts.ParkPermille > 0 {
